@@ -277,6 +277,18 @@ def tree_disagree(cases):
                                                                and (has(c, TREE, "stopped") or not has(c, TREE, "returned")))]
 
 
+GATE_AGREE_WHAT = "correspondence CorrGate.check_gate: Rooms.room_sets (model of check_room_feasibility / create_room_constraint_set, binary32 via " \
+                  "Flocq) and the implementation give different constraint sets (room stage alone, minimum sizes up to 40)"
+
+
+def gate_stream(ctx, seed, count):
+    return run_stream(ctx, "gate", ["--seed", seed, "--count", count, "--shards", 8], "gate", "gate")
+
+
+def gate_disagree(cases):
+    return [c for c in cases if c["stream"] == "gate" and not (c["code"] & 1)]
+
+
 ROOMS_AGREE_WHAT = "correspondence CorrRooms.check_rooms: RoomsModel.possible / kind_names and io/rooms.rs give different listings"
 
 
@@ -317,7 +329,7 @@ def generic_run(ctx, search, streams_fn, spec_fn, explanation_rule, known_fn=Non
         ev, ek = extra_fn(ctx, cases)
         extra_viol += ev
         known += ek
-    dis = node_disagree(cases) + solve_disagree(cases) + tree_disagree(cases) + rooms_disagree(cases)
+    dis = node_disagree(cases) + solve_disagree(cases) + tree_disagree(cases) + rooms_disagree(cases) + gate_disagree(cases)
     if (dis or search) and not bad and not extra_viol:
         # search stage: more inputs with another seed
         s2, c2 = streams_fn(ctx, 3 * scale, 1000)
@@ -329,13 +341,14 @@ def generic_run(ctx, search, streams_fn, spec_fn, explanation_rule, known_fn=Non
             ev, ek = extra_fn(ctx, c2)
             extra_viol += ev
             known += ek
-        dis += node_disagree(c2) + solve_disagree(c2) + tree_disagree(c2) + rooms_disagree(c2)
+        dis += node_disagree(c2) + solve_disagree(c2) + tree_disagree(c2) + rooms_disagree(c2) + gate_disagree(c2)
         cases += c2
     for w in sorted({c["why"] for c in bad}):
         viol += report_failing(ctx, [c for c in bad if c["why"] == w], w, limit=2)
     viol += extra_viol
     if dis and not viol:
-        for stream, what in (("node", NODE_AGREE_WHAT), ("solve", SOLVE_AGREE_WHAT), ("tree", TREE_AGREE_WHAT), ("rooms", ROOMS_AGREE_WHAT)):
+        for stream, what in (("node", NODE_AGREE_WHAT), ("solve", SOLVE_AGREE_WHAT), ("tree", TREE_AGREE_WHAT), ("rooms", ROOMS_AGREE_WHAT),
+                             ("gate", GATE_AGREE_WHAT)):
             d = [c for c in dis if c["stream"] == stream]
             if d:
                 viol += report_disagree(ctx, d, what)
@@ -529,6 +542,11 @@ def spec_c10(c):
         return "C10: run_bab_node panics on a valid instance and well-formed node"
     if c["stream"] == "solve" and has(c, SOLVE, "class") and not has(c, SOLVE, "returned"):
         return "C10: caobab::solve on a valid instance ends in a " + ("deadlock" if c["meta"]["outcome"] == 1 else "panic")
+    if c["stream"] == "gate" and (c["code"] & 2) and (c["code"] & 16):
+        return "C10: check_room_feasibility panics on a well-formed subproblem"
+    if c["stream"] == "gate" and (c["code"] & 2) and not (c["code"] & 4):
+        return "C10: the room stage of a well-formed subproblem produces a child that is not well formed (a course shrunk below its " \
+               "minimum size / an enforced course cancelled): enforcing that course later hits the assertion in run_bab_node"
     return None
 
 
@@ -1165,6 +1183,12 @@ def streams_node_solve(rooms):
     return f
 
 
+def streams_c10(ctx, scale, off):
+    ss, cs = streams_node_solve(2)(ctx, scale, off)
+    s3, c3 = gate_stream(ctx, ctx.seed + off + 7, 600 * scale)
+    return ss + [s3], cs + c3
+
+
 def c08_extra(ctx, cases):
     return c12_extra(ctx, cases, for_c08=True)
 
@@ -1312,7 +1336,7 @@ REGISTRY = {
                       "established by correspondence (both runs replayed against the model), not by a theorem"],
         assumptions=["effective sizes in binary32 (Flocq) as in C06"]),
 
-    "C10": dict(mk(spec_c10, streams_node_solve(2), RULE_NS + "; CLI stream: the real binary (debug build) on generated simple-format files incl. "
+    "C10": dict(mk(spec_c10, streams_c10, RULE_NS + "; CLI stream: the real binary (debug build) on generated simple-format files incl. "
                    "over-subscribed and infeasible instances, 1/2/4 threads, --rooms / --rooms-file, --print", extra_fn=c10_cli), allow_axioms=(),
         explanation="C10_node_partial (sites 1-5 of run_bab_node unreachable on valid instances and well-formed nodes; only the room stage's "
                     "sites 6-10 remain), C10_node_noroom (no site at all without rooms), C10_never_stuck (every instance). Never hangs: C04. "
